@@ -345,7 +345,7 @@ func runScenario(v6 bool, wait int, evs []srvEvent) *scenarioResult {
 					before++
 				}
 			}
-			waitOK = sc.waitReads(before+wait, 300*time.Millisecond)
+			waitOK = sc.waitReads(before+wait, 5*time.Second)
 			if !waitOK {
 				waitTimeouts.Add(1)
 			}
@@ -1083,7 +1083,7 @@ func checkC14(v6 bool, wait int, evs []srvEvent) (what, class string) {
 		}
 	}
 	if res.leaked {
-		return "goroutines spawned by Serve still running 2 s after it returned", "server-handler-leak"
+		return "goroutines spawned by Serve still running 10 s after it returned", "server-handler-leak"
 	}
 	return "", ""
 }
